@@ -13,9 +13,11 @@ package main
 
 import (
 	"context"
+	"errors"
 	"fmt"
 	"strconv"
 	"strings"
+	"sync"
 	"time"
 
 	"github.com/gotd/neo"
@@ -190,6 +192,156 @@ func neoCase(msg string, n int64) {
 	}
 }
 
+// recNeo is the neo fake clock that also records the duration of every timer armed on it.
+type recNeo struct {
+	*neo.Time
+	mu     sync.Mutex
+	timers []time.Duration
+}
+
+func (r *recNeo) Timer(d time.Duration) clock.Timer {
+	r.mu.Lock()
+	r.timers = append(r.timers, d)
+	r.mu.Unlock()
+	return r.Time.Timer(d)
+}
+func (r *recNeo) Ticker(d time.Duration) clock.Ticker { return r.Time.Ticker(d) }
+
+type scriptJS struct {
+	Mode    int     `json:"mode"` // 2
+	Msg     []byte  `json:"msg"`
+	Steps   []int64 `json:"steps"` // ns to advance the fake clock, -1 = cancel the context
+	Wrapped bool    `json:"wrapped,omitempty"`
+	Flood   bool    `json:"flood"`
+	N       int64   `json:"n,omitempty"`
+	Why     string  `json:"why,omitempty"`
+}
+
+// scriptCase drives FloodWait with a script of clock advances / cancellation on the fake
+// clock and observes when it returns and what. Oracle (restatement of the property): a
+// flood wait of n blocks until (n+1) s of fake time have elapsed, then returns (true, err);
+// a cancellation that comes first makes it return (false, ctx.Err()); any other error
+// returns (false, err) at once without a timer.
+func scriptCase(why string, msg string, flood bool, n int64, wrapped bool, steps []int64) {
+	c.Obs.Evaluations++
+	c.Count("flood-script:" + why)
+	js := scriptJS{Mode: 2, Msg: []byte(msg), Steps: steps, Wrapped: wrapped, Flood: flood, N: n, Why: why}
+	nt := &recNeo{Time: neo.NewTime(time.Unix(1700000000, 0))}
+	var e *tgerr.Error
+	if p, _ := hx.Recover(func() { e = tgerr.New(420, msg) }); p {
+		c.Violate("parse-panic", fmt.Sprintf("tgerr.New(420, %q) panicked", msg), -1, 0, js)
+		return
+	}
+	var in error = e
+	if wrapped {
+		in = fmt.Errorf("invoke: %w", e)
+	}
+	ctx, cancel := context.WithCancel(context.Background())
+	defer cancel()
+	type res struct {
+		ok       bool
+		err      error
+		panicked bool
+	}
+	done := make(chan res, 1)
+	armed := nt.Observe()
+	go func() {
+		var ok bool
+		var err error
+		p, _ := hx.Recover(func() { ok, err = tgerr.FloodWait(ctx, in, tgerr.FloodWaitWithClock(nt)) })
+		done <- res{ok, err, p}
+	}()
+	idx, code := int64(-2), int64(0)
+	var got *res
+	classify := func(r res) int64 {
+		switch {
+		case r.ok && r.err == in:
+			return 1
+		case !r.ok && errors.Is(r.err, context.Canceled):
+			return 2
+		case !r.ok && r.err == in:
+			return 3
+		}
+		return 7
+	}
+	// phase 0: either the timer gets armed or FloodWait returns at once
+	select {
+	case <-armed:
+	case r := <-done:
+		got, idx, code = &r, -1, classify(r)
+	case <-time.After(10 * time.Second):
+		c.Violate("flood-no-timer", fmt.Sprintf("FloodWait on %q neither armed a timer nor returned", msg), -1, 0, js)
+		return
+	}
+	due := time.Duration(n+1) * time.Second
+	var elapsed time.Duration
+	cancelled := false
+	for i, st := range steps {
+		if got != nil {
+			break
+		}
+		if st < 0 {
+			cancel()
+			cancelled = true
+		} else {
+			elapsed += time.Duration(st)
+			nt.Travel(time.Duration(st))
+		}
+		expectReturn := cancelled || (flood && elapsed >= due)
+		wait := 15 * time.Millisecond
+		if expectReturn {
+			wait = 10 * time.Second
+		}
+		select {
+		case r := <-done:
+			got, idx, code = &r, int64(i), classify(r)
+			if !expectReturn {
+				c.Violate("flood-returned-early", fmt.Sprintf("FloodWait on %q returned (%v, %v) after %v of fake time, before %d s + 1 s", msg, r.ok, r.err, elapsed, n), -1, 0, js)
+			}
+		case <-time.After(wait):
+			if expectReturn {
+				c.Violate("flood-not-returned", fmt.Sprintf("FloodWait on %q still blocked after %v of fake time (cancelled=%v), due after %v", msg, elapsed, cancelled, due), -1, 0, js)
+				return
+			}
+		}
+	}
+	nt.mu.Lock()
+	timer := int64(-1)
+	if len(nt.timers) > 0 {
+		timer = int64(nt.timers[0])
+	}
+	ntimers := len(nt.timers)
+	nt.mu.Unlock()
+	obs := append([]int64{timer, idx, code}, steps...)
+	sh, ix := c.Case(hx.Tuple("2", hx.Bytes([]byte(msg)), hx.ZList(obs), "0"), js)
+	if ntimers > 0 {
+		c.Nontrivial(fmt.Sprintf("s%s%v", msg, steps))
+	}
+	if got != nil && got.panicked {
+		c.Violate("flood-panic", fmt.Sprintf("FloodWait on %q panicked", msg), sh, ix, js)
+		return
+	}
+	switch {
+	case !flood:
+		if idx != -1 || code != 3 || ntimers != 0 {
+			c.Violate("flood-wait-on-other-error", fmt.Sprintf("FloodWait on non-flood %q: timers=%d returned-at=%d code=%d, want an immediate (false, err) without timer", msg, ntimers, idx, code), sh, ix, js)
+		}
+	default:
+		if ntimers != 1 || time.Duration(timer) != due {
+			c.Violate("flood-wrong-wait", fmt.Sprintf("FloodWait on %q armed %d timers, first %v, want one of %v", msg, ntimers, time.Duration(timer), due), sh, ix, js)
+		}
+		if got != nil {
+			want := int64(1)
+			if cancelled {
+				want = 2
+			}
+			if code != want {
+				c.Violate("flood-wrong-result", fmt.Sprintf("FloodWait on %q returned (%v, %v) at step %d, want code %d (1 retry with the original error, 2 context error)", msg, got.ok, got.err, idx, want), sh, ix, js)
+			}
+		}
+	}
+}
+
 const upper = "ABCDEFGHIJKLMNOPQRSTUVWXYZ"
 const upperDigit = "ABCDEFGHIJKLMNOPQRSTUVWXYZ0123456789"
 
@@ -234,6 +386,13 @@ func main() {
 	}()
 	var rp caseJS
 	if c.LoadReplay(&rp) {
+		var sp scriptJS
+		if rp.Mode == 2 && c.LoadReplay(&sp) {
+			scriptCase("replay", string(sp.Msg), sp.Flood, sp.N, sp.Wrapped, sp.Steps)
+			fmt.Printf("replay: FloodWait(%q) driven by the script %v on the fake clock (see obs.json for the verdict)\n", sp.Msg, sp.Steps)
+			c.Finish()
+			return
+		}
 		if rp.Mode == 0 {
 			p, v := hx.Recover(func() {
 				e := tgerr.New(400, string(rp.Msg))
@@ -298,6 +457,42 @@ func main() {
 	}{{"FLOOD_WAIT_3", 3}, {"FLOOD_PREMIUM_WAIT_7", 7}, {"FLOOD_WAIT_0", 0}, {"86400_FLOOD_WAIT", 86400}} {
 		neoCase(x.m, x.n)
 	}
+
+	// FloodWait control flow on the fake clock: scripts of advances / cancellation
+	for i := 0; i < c.N(36, 1500); i++ {
+		n := int64([]int{0, 1, 2, 3, 30, 59, 3600, 86400}[r.Intn(8)])
+		due := (n + 1) * 1000000000
+		kind := []string{"FLOOD_WAIT_%d", "FLOOD_PREMIUM_WAIT_%d", "%d_FLOOD_WAIT", "FLOOD_%d_WAIT"}[r.Intn(4)]
+		msg, flood := fmt.Sprintf(kind, n), true
+		if r.Chance(1, 5) {
+			msg, flood = []string{"SLOWMODE_WAIT_3", "FLOOD_WAITS_3", "PEER_FLOOD", "FLOOD_TEST_WAIT_5", "INTERNAL"}[r.Intn(5)], false
+		}
+		var steps []int64
+		for k := r.Range(1, 4); k > 0; k-- {
+			switch r.Intn(8) {
+			case 0:
+				steps = append(steps, -1)
+			case 1:
+				steps = append(steps, 0)
+			case 2:
+				steps = append(steps, due-1)
+			case 3:
+				steps = append(steps, due)
+			case 4:
+				steps = append(steps, 1)
+			case 5:
+				steps = append(steps, n*1000000000)
+			default:
+				steps = append(steps, int64(r.U64()%uint64(due+1)))
+			}
+		}
+		scriptCase("script", msg, flood, n, r.Chance(1, 3), steps)
+	}
+	scriptCase("script-corpus", "FLOOD_WAIT_3", true, 3, false, []int64{3999999999, 1})
+	scriptCase("script-corpus", "FLOOD_PREMIUM_WAIT_3", true, 3, true, []int64{4000000000})
+	scriptCase("script-corpus", "FLOOD_WAIT_3", true, 3, false, []int64{-1})
+	scriptCase("script-corpus", "FLOOD_WAIT_3", true, 3, false, []int64{1000000000, 1000000000, 1000000000})
+	scriptCase("script-corpus", "FLOOD_WAIT", true, 0, false, []int64{999999999, 1}) // no argument: Argument 0, waits the margin only
 
 	// generated messages of the stated shape
 	for i := 0; i < c.N(1200, 30000); i++ {
